@@ -182,7 +182,7 @@ fn main() {
     // (a replay file already carries the derived seed)
     let run_seed = if shard.1 > 1 && replay.is_none() { qv::util::hash64(seed, &[&shard.0.to_le_bytes()]) } else { seed };
     let ctx = Ctx { prop: "C10", tier, seed: run_seed, threads, replay, verbose: false };
-    let cfg = Cfg { tier, lane, shard, miri_budget_s: miri_budget_s.unwrap_or(tier.pick(40.0, 330.0)) };
+    let cfg = Cfg { tier, lane, shard, miri_budget_s: miri_budget_s.unwrap_or(tier.pick(12.0, 420.0)) };
     std::process::exit(run(&ctx, &cfg, seed, only.as_deref()));
 }
 
@@ -296,7 +296,8 @@ fn run(ctx: &Ctx, cfg: &Cfg, user_seed: u64, only: Option<&[String]>) -> i32 {
     };
     let (min_evals, min_nontrivial) = match (cfg.lane, ctx.tier, full) {
         (_, _, false) => (1, 2),
-        (Lane::Miri, _, _) => (200, 20),
+        // a shard on a busy machine judges a few hundred inputs; floor well below that
+        (Lane::Miri, _, _) => (20, 10),
         (Lane::Asan, Tier::Quick, _) => (50_000, 200),
         (Lane::Asan, Tier::Thorough, _) => (1_000_000, 500),
         (Lane::Fast, Tier::Quick, _) => (300_000, 500),
